@@ -11,7 +11,7 @@ PASSING_BASELINE = {
     'C05-error-path-skips-first-dependent', 'C06-revert-fix-b2b9229-three-thread-cache-race', 'C06-revert-fix-f5f2282-cache-race',
     'C08-no-backup-before-restore', 'C09-clean-ignores-goal', 'C10-clean-skips-targets-unknown-to-the-table',
     'C10-revert-fix-a92c30d-sort-false-cycle', 'C11-revert-fix-d7a08ad-atomic-state-files', 'C16-history-written-with-single-write-call',
-    'C18-revert-fix-stale-state-after-restore', 'C20-every-target-gets-the-first-targets-status', 'C20-recovered-and-up-to-date-texts-swapped',
+    'C18-revert-fix-stale-state-after-restore', 'C07+C01-file-hash-skips-256th-byte-of-a-full-buffer', 'C20-every-target-gets-the-first-targets-status', 'C20-recovered-and-up-to-date-texts-swapped',
 }
 
 
